@@ -40,6 +40,15 @@ func genRun(t *rapid.T, p pgen.Prog, seg, head uint64) runSpec {
 	if len(storeMaps) > 0 && rapid.IntRange(0, 3).Draw(t, "storeoutput") > 0 {
 		out = rapid.SampledFrom(storeMaps).Draw(t, "outputstore")
 	}
+	if p.Mod(out).Initial+2 > head {
+		// the module starts at or beyond the head of the generated chain (initial blocks pushed up by late inputs): a
+		// request for it would ask for blocks that do not exist; take the mapper that starts lowest instead
+		for _, m := range maps {
+			if p.Mod(m).Initial < p.Mod(out).Initial {
+				out = m
+			}
+		}
+	}
 	init := p.Mod(out).Initial
 	if f := world.FSB(); init < f {
 		init = f // a chain whose first streamable block is not 0 (VERIF_FSB): nothing exists below it
@@ -50,6 +59,9 @@ func genRun(t *rapid.T, p pgen.Prog, seg, head uint64) runSpec {
 		maxStart = init
 	}
 	r.Start = rapid.Uint64Range(init, maxStart).Draw(t, "start")
+	if r.Start+1 > head && init+1 <= head {
+		r.Start = head - 1 // never beyond the head of the chain
+	}
 	if rapid.IntRange(0, 5).Draw(t, "unbounded") == 0 {
 		r.Stop = 0
 	} else {
